@@ -1051,7 +1051,7 @@ def gen_steps(rng, mode: str) -> list:  # noqa: ANN001, ARG001
     return steps
 
 
-def gen_history(rng, mode: str, max_len: int = 6, *, weights: dict | None = None) -> dict:  # noqa: ANN001
+def gen_history(rng, mode: str, max_len: int = 6, *, weights: dict | None = None, special: bool = True) -> dict:  # noqa: ANN001
     y0 = [rng.choice([F(1), F(2), F(1, 2), F(3)]), rng.choice([F(0), F(1), F(1, 2), F(2)])]
     p0 = [rng.choice([F(1), F(1, 2), F(2), F(1, 4)]), rng.choice([F(0), F(0), F(1, 2), F(1)])]
     if mode == "exact":
@@ -1133,6 +1133,8 @@ def gen_history(rng, mode: str, max_len: int = 6, *, weights: dict | None = None
             have = True
         elif kind == "updpar":
             r = rng.random()
+            if not special:
+                r = 0.1 + 0.9 * r
             if mode == "exact" and r < 0.04:
                 u = {"boom": js(rng.choice([F(1), F(0)]))}
             elif mode == "exact" and r < 0.10:
@@ -1379,7 +1381,7 @@ def run_all(run: common.Run, prop: str, hs: list[dict], proofs_ok: bool) -> None
         if n_viol < 4:
             n_viol += 1
             small = shrink(h, prop, v)
-            run.violation(f"{prop}: op #{v['op']} of {small['ops']}: {v['what']}", {"kind": "history", "prop": prop, **small})
+            run.violation(f"{prop}: last operation of {small['ops']}: {v['what']}", {"kind": "history", "prop": prop, **small})
     run.coverage["violations_attributed_to_known_findings"] = attributed
 
     for f in common.load_known_findings(prop):
